@@ -21,11 +21,18 @@ structure St where
   cluster : Cluster := []
   caches : List (String × Cache String) := []     -- per kubernetes binding (by name)
   synced : Bool := false
-  origins : Array Origin := #[]
+  origins : Array Origin := #[]                   -- what the code-shaped model of the controllers built (`run`)
+  sorigins : Array Origin := #[]                  -- the same contexts in terms of the configuration and the request (oracles)
+  okeys : Array (List String × List String) := #[]  -- per context: includeSnapshotsFrom as written, kubernetes bindings of the group
+  rawO : List RawB := []                          -- the `ob` bindings as written
+  obRules : List (List (String × String)) := []   -- per `ob` binding: its conversion rules
 
 def cks (j : J) : String := j.print
 
 def dash (s : String) : String := if s == "-" then "" else s
+def undash (s : String) : String := if s == "" then "-" else s
+
+def crdName : String := "crontabs.stable.example.com"
 
 def okindOrd : OKind → Nat
   | .schedule => 0 | .validating => 1 | .mutating => 2 | .conversion => 3
@@ -51,6 +58,22 @@ def setCache (st : St) (b : String) (c : Cache String) : List (String × Cache S
   (b, c) :: st.caches.filter (·.1 != b)
 
 /-- One cluster change seen by every started monitor, in binding order. -/
+def rawPairs (st : St) : List (String × String) := st.rawK.map (fun r => (r.name, r.group))
+
+/-- What the configuration, as written, says about a binding's `snapshots`: own list, group members. -/
+def kbSpec (st : St) (name : String) : List String × List String :=
+  match st.rawK.find? (·.name == name) with
+  | some r => (r.inc, Spec.groupKbs (rawPairs st) r.group)
+  | none => ([], [])
+
+def obSpec (st : St) (k : Nat) : List String × List String :=
+  match st.rawO[k]? with
+  | some r => (r.inc, Spec.groupKbs (rawPairs st) r.group)
+  | none => ([], [])
+
+def pushO (st : St) (o so : Origin) (keys : List String × List String) : St :=
+  { st with origins := st.origins.push o, sorigins := st.sorigins.push so, okeys := st.okeys.push keys }
+
 def deliver (st : St) (ns name : String) (we : WatchEvent) (obj : J) : St × List String :=
   st.hook.kbs.foldl (fun (acc : St × List String) b =>
     if b.ns != ns then acc else
@@ -59,10 +82,16 @@ def deliver (st : St) (ns name : String) (we : WatchEvent) (obj : J) : St × Lis
     let st := { st with caches := setCache st b.name r.1 }
     match r.2 with
     | none => (st, acc.2)
-    | some _ => ({ st with origins := st.origins.push (.kubeEvent b we obj) }, acc.2 ++ [s!"{b.name}:{we.toString}"]))
+    | some _ => (pushO st (.kubeEvent b we obj) (.kubeEvent b we obj) (kbSpec st b.name), acc.2 ++ [s!"{b.name}:{we.toString}"]))
     (st, [])
 
 def origin? (st : St) (i : Nat) : Option Origin := st.origins[i]?
+def sorigin? (st : St) (i : Nat) : Option Origin := st.sorigins[i]?
+
+/-- The conversion bindings of the hook as the controller receives them (effective include lists). -/
+def convBs (st : St) : List ConvB :=
+  (st.hook.obs.zip st.obRules).filterMap (fun (b, rs) =>
+    if b.kind == .conversion then some { name := b.name, crd := crdName, group := b.group, inc := b.inc, rules := rs } else none)
 
 def step (st : St) (toks : List String) : St × String :=
   match toks with
@@ -88,8 +117,14 @@ def step (st : St) (toks : List String) : St × String :=
   | "ob" :: rest =>
     match (kv? "kind" rest).bind okind?, kv? "name" rest, kv? "group" rest, kv? "inc" rest, kv? "from" rest, kv? "to" rest with
     | some k, some name, some g, some inc, some fr, some to =>
-      let b : OBinding := { kind := k, name := name, group := dash g, inc := strList inc, fromV := dash fr, toV := dash to }
-      ({ st with hook := { st.hook with obs := st.hook.obs ++ [b] } }, "ok")
+      -- from= / to=: the conversion rules of the binding (two parallel lists)
+      let rules := (strList fr).zip (strList to)
+      if (strList fr).length != (strList to).length || (k == .conversion && rules.isEmpty) then (st, "bad-op") else
+      let b : OBinding := { kind := k, name := name, group := dash g, inc := strList inc,
+                            fromV := ((rules.head?).map (·.1)).getD "", toV := ((rules.head?).map (·.2)).getD "" }
+      ({ st with hook := { st.hook with obs := st.hook.obs ++ [b] },
+                 rawO := st.rawO ++ [{ name := name, group := dash g, inc := strList inc }],
+                 obRules := st.obRules ++ [rules] }, "ok")
     | _, _, _, _, _, _ => (st, "bad-op")
   | ["effective"] =>
     -- the loader merges, per binding with a group, the names of the kubernetes bindings of that group
@@ -121,22 +156,40 @@ def step (st : St) (toks : List String) : St × String :=
     let st := st.hook.kbs.foldl (fun (st : St) b =>
       let objs := (st.cluster.filter (fun o => o.1 = b.ns)).map (fun o => (nameId o.2.1, o.2.2))
       let c := (load b.cfg cks objs).getD []
-      { st with caches := setCache st b.name c, origins := st.origins.push (.kubeSync b) }) st
+      pushO { st with caches := setCache st b.name c } (.kubeSync b) (.kubeSync b) (kbSpec st b.name)) st
     ({ st with synced := true }, s!"ctx={st.hook.kbs.length}")
-  | ["mk", "onStartup"] => ({ st with origins := st.origins.push .onStartup }, "ctx=1")
+  | ["mk", "onStartup"] => (pushO st .onStartup .onStartup ([], []), "ctx=1")
   -- bindings of one type may share a name (every unnamed schedule binding is "schedule"): a context is
   -- attributed to its binding by the position `k` of the binding among the `ob` lines
   | ["mk", "schedule", name, k] =>
     match k.toNat?.bind (fun k => st.hook.obs[k]?) with
     | some b =>
-      if b.kind == .schedule && b.name == name then ({ st with origins := st.origins.push (.other b "") }, "ctx=1")
+      if b.kind == .schedule && b.name == name then (pushO st (.other b "") (.other b "") (obSpec st (k.toNat?.getD 0)), "ctx=1")
       else (st, "bad-op")
     | none => (st, "bad-op")
+  -- a conversion request served by rule `r` of the `i`-th binding. Code-shaped side (answer, `run`): the
+  -- link `EnableConversionBindings` stored under the rule and the context `HandleEvent` builds from it;
+  -- oracle side: the binding as written and the rule the request is for
+  | ["mk", "conversion", name, uid, i, r] =>
+    match i.toNat?, r.toNat? with
+    | some i, some r =>
+      match st.hook.obs[i]?, (st.obRules[i]?).bind (fun rs => rs[r]?) with
+      | some b, some rule =>
+        if !(b.kind == .conversion && b.name == name) then (st, "bad-op") else
+        match handleConversion (enableConversion (convBs st)) crdName rule s!"review:{uid}" with
+        | none => (st, "ctx=0")
+        | some c =>
+          let o : Origin := .other { kind := .conversion, name := c.binding, group := c.group, inc := c.includeSnapshots,
+                                     fromV := c.fromVersion, toV := c.toVersion } c.review
+          let so : Origin := .other { b with fromV := rule.1, toV := rule.2 } s!"review:{uid}"
+          (pushO st o so (obSpec st i), s!"ctx=1 binding={c.binding} from={undash c.fromVersion} to={undash c.toVersion}")
+      | _, _ => (st, "bad-op")
+    | _, _ => (st, "bad-op")
   | ["mk", k, name, uid, i] =>
     match okind? k, i.toNat?.bind (fun i => st.hook.obs[i]?) with
     | some kind, some b =>
-      if b.kind == kind && b.name == name && kind != .schedule then
-        ({ st with origins := st.origins.push (.other b s!"review:{uid}") }, "ctx=1")
+      if b.kind == kind && b.name == name && (kind == .validating || kind == .mutating) then
+        (pushO st (.other b s!"review:{uid}") (.other b s!"review:{uid}") (obSpec st (i.toNat?.getD 0)), "ctx=1")
       else (st, "bad-op")
     | _, _ => (st, "bad-op")
   | ["run", idx] =>
@@ -147,7 +200,7 @@ def step (st : St) (toks : List String) : St × String :=
       | some j => (st, "json=" ++ j.print)
       | none => (st, "panic")
   | ["oracle", "run", idx, got] =>
-    match (natList? idx).bind (fun is => is.mapM (origin? st)) with
+    match (natList? idx).bind (fun is => is.mapM (sorigin? st)) with
     | none => (st, "bad-op")
     | some os =>
       let want := (Spec.expectedFile st.version st.hook st.cluster os).print
@@ -156,7 +209,7 @@ def step (st : St) (toks : List String) : St × String :=
       | none => (st, "false want=" ++ want)
   | ["oracle", "snapshots", idx, bits] =>
     -- the clause "`snapshots` is present exactly when the binding includes snapshots", item by item
-    match (natList? idx).bind (fun is => is.mapM (origin? st)), natList? bits with
+    match (natList? idx).bind (fun is => is.mapM (sorigin? st)), natList? bits with
     | some os, some bs =>
       if os.length != bs.length then (st, s!"false items={bs.length} want={os.length}") else
       let bad := (List.range os.length).filter (fun i =>
@@ -167,6 +220,27 @@ def step (st : St) (toks : List String) : St × String :=
       | [] => (st, "true")
       | i :: _ => (st, s!"false item={i} has-snapshots={bs[i]?.getD 0} includes=" ++ showStrs (((os[i]?).map incOf).getD []))
     | _, _ => (st, "bad-op")
+  | ["oracle", "snapkeys", idx, shown] =>
+    -- the keys of `snapshots`, item by item (`!` = no `snapshots`): exactly the names in the binding's own
+    -- includeSnapshotsFrom plus the kubernetes bindings of its group, as the configuration is written
+    match (natList? idx).bind (fun is => is.mapM (fun i => st.okeys[i]?)) with
+    | none => (st, "bad-op")
+    | some ks =>
+      let items := shown.splitOn "|"
+      if items.length != ks.length then (st, s!"false items={items.length} want={ks.length}") else
+      let bad := (List.range ks.length).filter (fun i =>
+        match ks[i]?, items[i]? with
+        | some (own, grp), some it =>
+          let sh : Option (List String) := if it == "!" then none else some (strList it)
+          match st.version with
+          | .v1 => !(Spec.snapKeysClause own grp sh)
+          | .v0 => sh.isSome
+        | _, _ => true)
+      match bad with
+      | [] => (st, "true")
+      | i :: _ =>
+        let (own, grp) := (ks[i]?).getD ([], [])
+        (st, s!"false item={i} snapshots-keys={(items[i]?).getD "?"} own-includeSnapshotsFrom={showStrs own} group-kubernetes-bindings={showStrs grp}")
   | _ => (st, "bad-op")
 
 def suite : Suite St := { init := {}, step := step }
